@@ -122,7 +122,21 @@ def sweep_rule(d):
     return (f"{fn}-{cl.split('.',1)[1]}", SWEEP_TEXT[cl].format(fn=fn) + f"; e.g. {call[:160]} → {d['observed'][:160]}")
 
 
-RULES = {'C19': c19_rule, 'C01': pm_rule, 'C02': pm_rule_any, 'C12': pm_rule_any, 'C03': sweep_rule, 'C04': sweep_rule, 'C05': sweep_rule}
+def c24_rule(d):
+    w = d['witness']
+    obj = w.get('obj') or {}
+    strs = list(obj.keys()) + [v for v in obj.values() if isinstance(v, str)]
+    txt = ''.join(strs)
+    if '\n' in txt:
+        return ('newline-double-escaped', "encode_key_value/encode_logfmt write a newline as backslash-backslash-n (`'\\n' => r\"\\\\n\"` in src/core/encode_key_value.rs, pinned by its own unit test), which the parser reads back as the two characters `\\n`, never LF: {\" \": \"\\n\"} does not round-trip")
+    if '\\' in txt:
+        return ('backslash-doubled-outside-quotes', "the encoder doubles `\\` even in an unquoted field, but the parser un-escapes only inside quoted fields: {\"\\\\\": \"é\"} encodes to `\\\\=é` and parses as a two-backslash key")
+    if any(t.startswith("'") for t in strs):
+        return ('leading-single-quote', "the parser treats `'` as a quote character but the encoder never quotes or escapes it: {\"'\": \"'\"} encodes to `'='` and parses as {\"=\": true}")
+    return ('custom-delimiter-not-quoted', "needs_quoting only looks at whitespace, `\"` and `=`: with custom delimiters a key/value containing the field delimiter or the key-value delimiter is written bare (`{\":\": \":\"}` with `:`/`,` encodes to `:::`) and is split at the wrong place or rejected")
+
+
+RULES = {'C24': c24_rule, 'C19': c19_rule, 'C01': pm_rule, 'C02': pm_rule_any, 'C12': pm_rule_any, 'C03': sweep_rule, 'C04': sweep_rule, 'C05': sweep_rule}
 
 
 def main():
